@@ -14,14 +14,15 @@ func init() {
 		Title: "Relevant transactions are delivered completely and exactly once",
 		Explanation: "Decides the gate/ownership skeleton of transaction delivery: " +
 			"(R1) client.Handler.HandleTx / HandleTxUpdate are invoked in the node only from the frozen set of delivery functions; " +
-			"(R2) in processUnconfirmedTx HandleTx is reachable only through MemPool.AddTransaction added==true, IsRelevant()==true and TxRepository.Add(…,-1) with err==nil and added==true (the single gate); " +
+			"(R11) in processUnconfirmedTx a record read from the tx-state store is delivered as new only past an edge showing it has no merkle proof or that the proof's block is no longer in the chain (re-announcement after confirmation must not re-deliver); (R2) in processUnconfirmedTx HandleTx is reachable only through MemPool.AddTransaction added==true, IsRelevant()==true and TxRepository.Add(…,-1) with err==nil and added==true (the single gate); " +
 			"(R3) in ProcessBlock a tx is classified new only through inUnconfirmed==false ∧ inMemPool==false ∧ IsRelevant()==true and as already delivered only through inUnconfirmed==true; HandleTx is guarded by the new flag and the confirm update by its negation; " +
 			"(R4) every client.Tx built in internal/spynode passes the success edge of fetchSpentOutputs before it is saved or delivered; " +
 			"(R5) every HandleTx / HandleTxUpdate argument was saved successfully (SaveTxState) after its last modification; " +
 			"(R6) the unconfirmed map is only touched under unconfirmedLock (frozen exceptions: Load at start-up, Save's unlocked len for a log line); " +
 			"(R7) ProcessBlock releases the hand-over lock taken by GetUnconfirmed exactly once on every exit and never calls, while holding it, a function that takes it on every path; " +
 			"(R8) no delivered transaction is provably nil (a FetchTxState result is not used on the error path of the same call); " +
-			"(R9) TxRepository.Add(…,-1) inserts and returns added=true only when the txid was absent, and returns added=false without inserting otherwise.",
+			"(R9) TxRepository.Add(…,-1) inserts and returns added=true only when the txid was absent, and returns added=false without inserting otherwise; " +
+			"(R10) MemPool.removeTransaction reports 'was in the mempool' only for entries whose body was present (block processing uses that answer to skip classification).",
 		NotDecided:  "completeness / exactly-once over arrival orders, duplicates across peers, re-announcement after confirmation, behaviour after reorg and restart (history-quantified).",
 		Assumptions: []string{"handlers are invoked synchronously", "storage.FetchTxState returns (nil, err) or (tx, nil)"},
 		Tech:        "who-may-call, guard edge cut-sets, path typestate (built → outputs fetched → saved → notified), lock typestate with hand-over summaries, nil-on-error-path dataflow",
@@ -86,6 +87,45 @@ func runC03(c *Check) {
 			c.Decide(ok, "R2", key+"#repo-add-ok", h.Pos(), "edge-cutset", w, "behind err==nil of that Add", "delivery continues although adding to the unconfirmed repository failed")
 		}
 		c.Min("R2", "HandleTx in processUnconfirmedTx", len(hs), 1)
+
+		// ---- R11 a stored state is delivered as new only if it is not confirmed in the active chain:
+		// every path to HandleTx leaves the fetch of the tx's own stored state on its error edge (no
+		// state yet), or passes "MerkleProof == nil" or "the proof's block is not in the chain".
+		if ta := c.txAnchors("R11"); ta != nil {
+			for _, h := range hs {
+				arg := h.CC.Args[len(h.CC.Args)-1]
+				var self []*ssa.Call
+				for _, s := range callsTo(fn, "storage.FetchTxState") {
+					if call, ok := s.Instr.(*ssa.Call); ok && derivesFromValue(arg, call) {
+						self = append(self, call)
+					}
+				}
+				key := "spynode.(*Node).processUnconfirmedTx#HandleTx#stored-state-not-confirmed"
+				if len(self) == 0 {
+					c.Ok("R11", key, h.Pos(), "provenance", "the delivered record never comes from the tx-state store")
+					continue
+				}
+				isSelf := func(call *ssa.Call) bool {
+					for _, x := range self {
+						if x == call {
+							return true
+						}
+					}
+					return false
+				}
+				noProof := nilEdge(func(v ssa.Value) bool {
+					_, f := ta.stateFlagLoad(v)
+					return f == ta.proof
+				}, true)
+				notInChain := anyEdge(
+					callEdge(false, -1, nil, "(*storage.BlockRepository).Contains"),
+					callEdge(false, 1, nil, "(*storage.BlockRepository).Height"))
+				ok, w := mustPass(h.Instr, anyEdge(errNilEdge(isSelf, false), noProof, notInChain))
+				c.Decide(ok, "R11", key, h.Pos(), "edge-cutset", w,
+					"a tx whose stored state exists is delivered as new only if that state has no merkle proof or its block left the chain",
+					"a tx whose stored state carries a merkle proof of a block still in the chain (it was delivered and confirmed) is delivered as new again when it is re-announced")
+			}
+		}
 	}
 
 	// ---- R3 classification in ProcessBlock
@@ -426,6 +466,9 @@ func runC03(c *Check) {
 			}
 		}
 	}
+
+	// ---- R10 (added after seeded round 2)
+	c.ruleRemoveReportsBody("R10")
 
 	// ---- R9 the gate discriminates
 	if fn := c.Fn("R9", "storage.(*TxRepository).Add"); fn != nil && unconf != nil {
